@@ -6,7 +6,7 @@
 From Coq Require Import List String Ascii Bool Arith ZArith.
 From Helm Require Import Common.Assoc Common.Strs Values.Tree Values.Coalesce
   Misc.Panics Misc.PanicsStorage Misc.PanicsDeps Misc.PanicsIndex Misc.PanicsSort Misc.PanicsSchema
-  Gen.C20Tables.
+  Values.Strvals Misc.PanicsStrvals Gen.C20Tables.
 Import ListNotations.
 Local Open Scope string_scope.
 
@@ -377,6 +377,16 @@ Definition schema_run (direct : bool) (c : schart sch) (defaults : list (string 
         end
     end.
 
+(* ---------- strvals ---------- *)
+Definition strvals_run (m : pmode) (input : string) : cls :=
+  match PanicsStrvals.parse (mkCfg m [] []) true strvals_max_index (Z.to_nat strvals_max_nested_name_level)
+                            (2 ^ 40)%Z true [] input with
+  | Ret (Ok _) => COk
+  | Ret Err => CErr
+  | Ret (Panic _) => CPanic
+  | Fatal => CPanic
+  end.
+
 (* ---------- cases ---------- *)
 Inductive case :=
 | CStorage (st : list (sobj (option srel))) (ops : list sop) (obs : list sobs)
@@ -385,6 +395,7 @@ Inductive case :=
          (mg : option (list (string * string) * rawindex)) (obs : iobs)
 | CManifest (fs : list mfile) (obs : mobs)
 | CSchema (direct : bool) (c : schart sch) (defaults : list (string * vmap)) (v : vmap) (obs : cls)
+| CStrvals (m : pmode) (input : string) (obs : cls)
 | CExplore (obs : cls).          (* raw / mutated input on the real code only: nothing to compare,
                                     the runtime oracle judges it *)
 
@@ -395,6 +406,7 @@ Definition case_ok (c : case) : bool :=
   | CIndex o bad r qs mg obs => iobs_eqb (index_run o bad r qs mg) obs
   | CManifest fs obs => mobs_eqb (man_run fs) obs
   | CSchema direct c d v obs => cls_eqb (schema_run direct c d v) obs
+  | CStrvals m input obs => cls_eqb (strvals_run m input) obs
   | CExplore _ => true
   end.
 
